@@ -676,6 +676,12 @@ def gen_bt(rng, N, malformed=False):
 
 
 def run(ctx):
+    _run_core(ctx)
+    from harness.props import c19_ext
+    c19_ext.run_ext(ctx, import_cuqi())      # session 3: access / glue code around the core (Model/C19_access.lean)
+
+
+def _run_core(ctx):
     cuqi = import_cuqi()
     from cuqi.samples import Samples, JointSamples
     import cuqi.samples._samples as smod
